@@ -41,6 +41,10 @@ type Program struct {
 	succCacheD map[*ssa.Function][]*ssa.Function
 
 	NFiles, NFuncs, NInstr int
+
+	renamed   map[string]*DeclSite
+	pinnedOf  map[string]string
+	RenamedTo map[string]string // function of the pinned tree -> its current name, for the renames that were resolved
 }
 
 // outOfScope lists packages that are loaded but are not subject to rules:
@@ -130,6 +134,7 @@ func Load(dir, goarch string) (*Program, error) {
 			}
 		}
 	}
+	activeProgram = p
 	return p, nil
 }
 
@@ -198,7 +203,18 @@ func FuncName(f *ssa.Function) string {
 	if f == nil {
 		return "<nil>"
 	}
-	return Rel(f.String())
+	return canonName(Rel(f.String()))
+}
+
+// activeProgram: the program whose renamed functions are reported under their pinned names by
+// FullName / FuncName, so that rules and tables keep matching after an unexported function was renamed.
+var activeProgram *Program
+
+func canonName(name string) string {
+	if activeProgram == nil {
+		return name
+	}
+	return activeProgram.PinnedName(name)
 }
 
 // Pos renders a position relative to the repository root.
@@ -237,11 +253,31 @@ func (p *Program) Func(pkgRel, name string) *ssa.Function {
 	if sp == nil {
 		return nil
 	}
-	return sp.Func(name)
+	if f := sp.Func(name); f != nil {
+		return f
+	}
+	// renamed since the pinned tree?
+	if d := p.resolveRenamed(pkgRel + "." + name); d != nil {
+		return sp.Func(d.Decl.Name.Name)
+	}
+	return nil
 }
 
 // Method looks up a method (pointer or value receiver) on a named type.
 func (p *Program) Method(pkgRel, typeName, method string) *ssa.Function {
+	if f := p.methodExact(pkgRel, typeName, method); f != nil {
+		return f
+	}
+	// renamed since the pinned tree? (pointer or value receiver)
+	for _, full := range []string{"(*" + pkgRel + "." + typeName + ")." + method, "(" + pkgRel + "." + typeName + ")." + method} {
+		if d := p.resolveRenamed(full); d != nil {
+			return p.methodExact(pkgRel, typeName, d.Decl.Name.Name)
+		}
+	}
+	return nil
+}
+
+func (p *Program) methodExact(pkgRel, typeName, method string) *ssa.Function {
 	pk := p.Pkg(pkgRel)
 	if pk == nil {
 		return nil
